@@ -5,7 +5,9 @@ import (
 	"flag"
 	"fmt"
 	"os"
+	"runtime"
 	"strconv"
+	"strings"
 	"time"
 
 	"verif/harness/internal/core"
@@ -72,8 +74,42 @@ func main() {
 		ctx.Inconclusive(fmt.Sprintf("wall-clock watchdog (%ds) fired before the workload completed", limit))
 		os.Exit(ctx.Finish())
 	}()
+	// heap watchdog: code under test that retains memory across calls (a per-call append into a
+	// policy table, an unbounded cache) makes the monitor process grow until the kernel kills it
+	// and nothing is reported. Past 60% of RAM the run stops instead: violations already witnessed
+	// are reported with their replay files, otherwise the run is inconclusive (never a violation).
+	go func() {
+		lim := heapLimit()
+		var ms runtime.MemStats
+		for {
+			time.Sleep(300 * time.Millisecond)
+			runtime.ReadMemStats(&ms)
+			if ms.HeapAlloc > lim {
+				ctx.Inconclusive(fmt.Sprintf("heap watchdog: the monitor process holds %d MiB of live heap (limit %d MiB) before the workload completed; memory is being retained across sanitiser calls or the workload is too large for this machine", ms.HeapAlloc>>20, lim>>20))
+				os.Exit(ctx.Finish())
+			}
+		}
+	}()
 	m(ctx)
 	os.Exit(ctx.Finish())
+}
+
+// heapLimit is 60% of MemTotal (VERIF_HEAP_LIMIT_MB overrides), 24 GiB when unknown.
+func heapLimit() uint64 {
+	if v, err := strconv.ParseUint(os.Getenv("VERIF_HEAP_LIMIT_MB"), 10, 64); err == nil && v > 0 {
+		return v << 20
+	}
+	if b, err := os.ReadFile("/proc/meminfo"); err == nil {
+		for _, l := range strings.Split(string(b), "\n") {
+			f := strings.Fields(l)
+			if len(f) >= 2 && f[0] == "MemTotal:" {
+				if kb, err := strconv.ParseUint(f[1], 10, 64); err == nil && kb > 0 {
+					return kb * 1024 / 10 * 6
+				}
+			}
+		}
+	}
+	return 24 << 30
 }
 
 func isFlagSet(name string) bool {
